@@ -1,9 +1,11 @@
-(* C14 (a statement that returns an error changes nothing), the part that holds of the code
-   as it is: a statement whose error arises BEFORE its first page change leaves every page,
-   the catalog root and the allocator untouched (only the row-id and LSN counters may have
-   been consumed), so `abs` is unchanged; and no failing statement appends anything to the log
-   or flushes. What does NOT hold (errors at row k > 1 of a multi-row statement, errors while
-   storing column k > 1 of CREATE TABLE) is refuted in Properties/C14.v. *)
+(* C14 (a statement that returns an error changes nothing), the part that needs no invariant:
+   a statement whose error arises BEFORE its first page change (`fails_early`, a syntactic
+   criterion looking at the first row only) leaves every page, the catalog root and the allocator
+   untouched, so `abs` is unchanged; and no failing statement appends anything to the log or
+   flushes. Errors at row k > 1 of a multi-row statement / column k > 1 of CREATE TABLE are caught
+   by the check loops the engine now runs before its first change (first_err / create_bad_rows);
+   that nothing can fail AFTER those checks needs the refinement invariant and is proved in
+   Proofs/FailsEarly.v (stmt_err_unchanged). *)
 From Coq Require Import Arith Lia Bool List NArith String.
 From Mkdb Require Import Model.Engine Proofs.StoreInv.
 Import ListNotations.
@@ -69,18 +71,7 @@ Qed.
 Lemma same_pages_abs s s' : same_pages s s' -> abs s' = abs s.
 Proof. intros (Hf & Hp & _). apply abs_pages; assumption. Qed.
 
-(* ---------- RelationService.Insert: everything before BTree.insert ---------- *)
-Definition ins_precheck (s : store) (name : string) (cols : list string) (vals : list value)
-  : res (N * bytes) :=
-  do off <- rel_offset s name;
-  do _ <- get_tree s off;
-  do sch <- rel_schema s name;
-  let cols' := match cols with [] => map fd_name sch | _ => cols end in
-  if negb (Nat.eqb (length cols') (length vals)) then Err EColCount else
-  match cols_err (map fd_name sch) cols' [] with Some e => Err e | None =>
-  do bs <- encode_tuple sch (zip_set cols' vals []);
-  Ok (off, bs) end.
-
+(* ---------- RelationService.Insert: everything before BTree.insert (Model/Store.v ins_precheck) ---------- *)
 Lemma st_insert_unfold s name cols vals :
   st_insert s name cols vals =
   if is_sys_table name then (s, Err EOther) else
@@ -159,26 +150,63 @@ Definition lit_vals (sets : list (string * vexpr)) : list value :=
 Definition set_from_col (sets : list (string * vexpr)) : bool :=
   existsb (fun sv => match snd sv with XCol _ => true | _ => false end) sets.
 
+(* the check loops *)
+Lemma first_err_ok {A} (chk : A -> res unit) l :
+  first_err chk l = Ok tt -> forall a, In a l -> chk a = Ok tt.
+Proof.
+  induction l as [|x l IH]; intros H a Ha; [contradiction|]. cbn [first_err] in H.
+  destruct (chk x) as [[]|e|] eqn:Ex; try discriminate.
+  destruct Ha as [<-|Ha]; [exact Ex | apply IH; assumption].
+Qed.
+
+Lemma first_err_ok_intro {A} (chk : A -> res unit) l :
+  (forall a, In a l -> chk a = Ok tt) -> first_err chk l = Ok tt.
+Proof.
+  induction l as [|x l IH]; intros H; [reflexivity|]. cbn [first_err].
+  rewrite (H x (or_introl eq_refl)). apply IH. intros a Ha. apply H. right. exact Ha.
+Qed.
+
+Lemma first_err_ext {A} (f g : A -> res unit) l :
+  (forall a, In a l -> f a = g a) -> first_err f l = first_err g l.
+Proof.
+  induction l as [|x l IH]; intros H; [reflexivity|]. cbn [first_err].
+  rewrite (H x (or_introl eq_refl)), IH; [reflexivity|]. intros a Ha. apply H. right. exact Ha.
+Qed.
+
 Lemma run_insert s n cols rows :
   run_stmt s (SInsert n cols rows) =
-  mkEffect (fst (fst (insert_rows s n cols rows [] 0))) (snd (fst (insert_rows s n cols rows [] 0)))
-           false (snd (insert_rows s n cols rows [] 0)).
-Proof. cbn [run_stmt]. destruct (insert_rows s n cols rows [] 0) as [[s1 b] o]. reflexivity. Qed.
+  match first_err (check_insert s n cols) rows with
+  | Ok _ =>
+      mkEffect (fst (fst (insert_rows s n cols rows [] 0))) (snd (fst (insert_rows s n cols rows [] 0)))
+               false (snd (insert_rows s n cols rows [] 0))
+  | Err e => mkEffect s [] false (OErr e)
+  | Panic => mkEffect s [] false OPanic
+  end.
+Proof.
+  cbn [run_stmt]. destruct (first_err _ rows) as [u|e|]; try reflexivity.
+  destruct (insert_rows s n cols rows [] 0) as [[s1 b] o]. reflexivity.
+Qed.
 
 Lemma run_update s n sets w :
   run_stmt s (SUpdate n sets w) =
   if set_from_col sets then mkEffect s [] false (OErr ETmpUnsupported)
   else match where_ids s n w with
        | Ok ids =>
-           let r := update_rows s n (map fst sets) (lit_vals sets) ids [] in
-           mkEffect (fst (fst r)) (snd (fst r)) false (snd r)
+           match first_err (fun k => check_update s n k (map fst sets) (lit_vals sets)) ids with
+           | Ok _ =>
+               let r := update_rows s n (map fst sets) (lit_vals sets) ids [] in
+               mkEffect (fst (fst r)) (snd (fst r)) false (snd r)
+           | Err e => mkEffect s [] false (OErr e)
+           | Panic => mkEffect s [] false OPanic
+           end
        | Err e => mkEffect s [] false (OErr e)
        | Panic => mkEffect s [] false OPanic
        end.
 Proof.
   cbn [run_stmt]. unfold set_from_col, lit_vals. destruct (existsb _ sets); [reflexivity|].
   destruct (where_ids s n w) as [ids|e|]; try reflexivity.
-  cbv zeta. destruct (update_rows s n _ _ ids []) as [[s1 b] o]. reflexivity.
+  cbv zeta. destruct (first_err _ ids) as [u|e|]; try reflexivity.
+  destruct (update_rows s n _ _ ids []) as [[s1 b] o]. reflexivity.
 Qed.
 
 Lemma run_delete s n w :
@@ -223,10 +251,12 @@ Proof.
   destruct st as [q|n cds|n| |n|n cols rows|n sets w|n w]; try (cbn; auto; fail).
   - cbn [run_stmt]. destruct (st_create_table s n (map fielddef_of cds)) as [s1 [u|e1|]]; cbn; auto.
     discriminate.
-  - rewrite run_insert. cbn [e_out e_batch e_flushed]. intros H. split; [|reflexivity].
+  - rewrite run_insert. destruct (first_err _ rows) as [u|e1|]; cbn [e_out e_batch e_flushed]; auto.
+    intros H. split; [|reflexivity].
     eapply insert_rows_err_batch; eauto.
   - rewrite run_update. destruct (set_from_col sets); [cbn; auto|].
     destruct (where_ids s n w) as [ids|e1|]; cbn [e_out e_batch e_flushed]; auto.
+    destruct (first_err _ ids) as [u|e1|]; cbn [e_out e_batch e_flushed]; auto.
     intros H. split; [|reflexivity]. eapply update_rows_err_batch; eauto.
   - rewrite run_delete. destruct (where_ids s n w) as [ids|e1|]; cbn [e_out e_batch e_flushed]; auto.
     intros H. split; [|reflexivity]. eapply delete_rows_err_batch; eauto.
@@ -287,37 +317,28 @@ Proof.
   - (* CREATE TABLE *)
     cbn [run_stmt fails_early]. unfold st_create_table. rewrite names_fielddef_of.
     destruct (names_distinct (map cd_name cds)); [|intros _ _; cbn [e_store]; apply same_pages_refl].
-    cbn [negb orb]. unfold st_create_table0. intros _ Hfe.
+    cbn [negb orb]. unfold create_bad_rows, st_create_table0. intros _ Hfe.
     destruct (rel_offset s n) as [o|e1|]; [| |discriminate].
     + cbn [e_store]. apply same_pages_refl.
     + destruct e1; try discriminate; cbn [e_store]; apply same_pages_refl.
-  - (* INSERT *)
-    rewrite run_insert. cbn [e_out e_store fails_early].
-    destruct rows as [|r rest]; [discriminate|]. cbn [insert_rows]. rewrite st_insert_unfold.
-    destruct (is_sys_table n); [intros _ _; cbn [fst]; apply same_pages_refl|]. cbn [orb].
-    destruct (ins_precheck s n cols r) as [[off bs]|e1|] eqn:Ep; [| |discriminate].
-    + intros Ho Hfe. apply Nat.ltb_lt in Hfe.
-      destruct (bt_insert_too_large s off bs Hfe) as [Hsp Hno].
-      destruct (bt_insert s off bs) as [s1 [[[k l] nr]|e2|]]; cbn [fst snd] in *.
-      * exfalso. eapply Hno. reflexivity.
-      * exact Hsp.
-      * exact Hsp.
-    + intros _ _. cbn [fst]. apply same_pages_refl.
-  - (* UPDATE *)
+  - (* INSERT: a refusal of the first row is a refusal by the check loop *)
+    rewrite run_insert. cbn [fails_early].
+    destruct rows as [|r rest]; [discriminate|]. cbn [first_err]. unfold check_insert.
+    destruct (is_sys_table n); [intros _ _; cbn [e_store]; apply same_pages_refl|]. cbn [orb].
+    destruct (ins_precheck s n cols r) as [[off bs]|e1|] eqn:Ep; cbn [bind snd]; [| |discriminate].
+    + unfold check_row_size. intros Ho Hfe. rewrite Hfe. cbn [e_store]. apply same_pages_refl.
+    + intros _ _. cbn [e_store]. apply same_pages_refl.
+  - (* UPDATE: likewise *)
     rewrite run_update. cbn [fails_early].
     destruct (set_from_col sets); [intros _ _; cbn [e_store]; apply same_pages_refl|].
     cbn [orb]. destruct (where_ids s n w) as [ids|e1|]; [| |cbn [e_out]; discriminate].
-    + destruct ids as [|k rest]; [cbv zeta; cbn [e_out update_rows snd]; discriminate|].
-      cbv zeta. cbn [e_out e_store update_rows].
-      intros _ Hfe. rewrite orb_true_iff in Hfe.
-      pose proof (st_update_err s n k (map fst sets) (lit_vals sets)) as Hs.
-      assert (Hx : exists e2, snd (st_update s n k (map fst sets) (lit_vals sets)) = Err e2).
-      { destruct Hfe as [Hsys|Hfe].
+    + destruct ids as [|k rest]; [cbv zeta; cbn [first_err e_out update_rows snd]; discriminate|].
+      cbn [first_err]. intros _ Hfe. rewrite orb_true_iff in Hfe.
+      assert (Hx : exists e2, check_update s n k (map fst sets) (lit_vals sets) = Err e2).
+      { unfold check_update. destruct Hfe as [Hsys|Hfe].
         - unfold st_update, upd_bad_cols, st_update0. rewrite Hsys. cbn [snd]. eauto.
         - destruct (snd (st_update s n k (map fst sets) (lit_vals sets))); try discriminate. eauto. }
-      destruct Hx as [e2 He2]. specialize (Hs e2 He2).
-      destruct (st_update s n k (map fst sets) (lit_vals sets)) as [s1 r1];
-        cbn [fst snd] in *. subst s1 r1. cbn [fst]. apply same_pages_refl.
+      destruct Hx as [e2 He2]. rewrite He2. cbn [e_store]. apply same_pages_refl.
     + intros _ _. cbn [e_store]. apply same_pages_refl.
   - (* DELETE *)
     rewrite run_delete. cbn [fails_early].
